@@ -122,6 +122,14 @@ def norm_oracle(keys):
     return [(r[0], r[1]) for r in res]
 
 
+def drv_norm_shared(keys):
+    """[f(K0), Field(K1), f]: the SAME Field object sits twice in the entry"""
+    f = Field(keys[0], "v0", 3)
+    e = Entry("article", "thekey", [f, Field(keys[1], "v1", 2), f])
+    NormalizeFieldKeys(True).transform(Library([e]))
+    return snapshot(e), norm_oracle([keys[0], keys[1], keys[0]])
+
+
 def drv_norm(keys):
     e, s, lib = mk_lib(keys)
     out = NormalizeFieldKeys(True).transform(lib)
@@ -284,6 +292,38 @@ def swapcase_sym(k):
     return mk([c.map(str.swapcase) if not isinstance(c, str) else c.swapcase() for c in chars(k)])
 
 
+def task_norm_shared():
+    eng = Engine()
+    rec = Recorder(eng)
+    keys = sym_keys(eng, (1, 1))
+    E = eng.I.models.eq_simple
+    worlds = eng.run(drv_norm_shared, [keys])
+
+    def rp(m):
+        import logging
+        logging.disable(logging.CRITICAL)
+        ks = eng.model_value(m, keys)
+        try:
+            got, exp = drv_norm_shared(ks)
+        except Exception as ex:  # noqa
+            from pysym.harness import guard_repo_exception
+            guard_repo_exception(ex)
+            return {"input": ks, "observed": f"raised {type(ex).__name__}: {ex}", "expected": "normalised fields"}
+        exp = [(k, "v0" if v == "v2" else v) for k, v in exp]
+        if got == exp:
+            return None
+        return {"input": ks, "observed": got, "expected": exp}
+    for W in worlds:
+        if W.exc is not None:
+            rec.require(W, True, "shared-field-no-exception", rp)
+            continue
+        got, exp = W.result
+        exp = [(k, "v0" if v == "v2" else v) for k, v in exp]      # the third occurrence is the first object again (value v0)
+        rec.require(W, b_not(E(got, exp)), "shared-field-object", rp)
+        rec.witness("shared-field", W)
+    return rec.result(worlds=len(worlds))
+
+
 def task_reuse(lens, kind, cs=None):
     """keys2 = the keys of the first entry with the case of every letter swapped (what a cache keyed without regard to
     case, or by position, would confuse)"""
@@ -401,7 +441,7 @@ def main():
     chk.bounds = {"fields": f"0..{nmax} fields, every key a symbolic string of 1 or 2 characters over {KS!r}",
                   "custom order": "0..3 symbolic keys (1-2 chars), case_sensitive in {True, False}"}
     chk.assumptions = ["keys longer than 2 characters / other letters and more fields are outside the claim", "values are distinct tags (values are never inspected by the middlewares)"]
-    chk.expected_vacuity = ["alpha-reordered", "custom-reordered", "order-rejected", "keys-merged", "instance-reused"]
+    chk.expected_vacuity = ["alpha-reordered", "custom-reordered", "order-rejected", "keys-merged", "instance-reused", "shared-field"]
     for n in range(nmax, -1, -1):
         for lens in itertools.product((1, 2), repeat=n):
             if n >= 4 and sum(lens) > n + 1:
@@ -423,6 +463,7 @@ def main():
     for seq in seqs:
         chk.add_task("seq-" + "-".join(seq), task_seq, lens=(1, 1, 1), seq=seq)
     chk.bounds["one instance, several entries / libraries"] = "each middleware (custom order (b, A) in both case modes) on a library of two entries - 2..3 fields with 1-char symbolic keys, and the same keys with swapped case - and then on a second library: results equal those of fresh instances"
+    chk.add_task("norm-shared-field-object", task_norm_shared)
     for lens in ((1, 1, 1), (1, 1)):
         for kind, cs in (("alpha", None), ("norm", None), ("custom", True), ("custom", False)):
             chk.add_task(f"reuse-{kind}-cs{cs}-{len(lens)}", task_reuse, lens=lens, kind=kind, cs=cs)
